@@ -42,6 +42,11 @@ PRIOR_CUSTOM = {"custom/type": "PriorClass", "other/type": "PriorOther", "cell":
                 "analysis/psth": "PriorPSTH"}
 
 
+# repository urls (never fetched by an export): two different ones, each used several times
+REPOS = [None, None, "file:///nonexistent/terminology-a.xml", None, "file:///nonexistent/terminology-b.xml",
+         "file:///nonexistent/terminology-a.xml"]
+
+
 def prescribed_table(sub):
     """Section type -> RDF class, from the resource file of the library and the map given to *this*
     writer - computed here, not read back from the writer object."""
@@ -49,7 +54,7 @@ def prescribed_table(sub):
     path = os.path.join(os.path.dirname(odml.__file__), "resources", "section_subclasses.yaml")
     with open(path) as fh:
         table = dict(yaml.safe_load(fh))
-    if sub == "off":
+    if sub in ("off", "off+custom"):
         return None
     if sub == "custom":
         table.update(CUSTOM)
@@ -75,7 +80,7 @@ def cases(draw, max_depth):
                             text_classes=["plain", "dquote", "squote", "newline", "nonascii", "comma",
                                           "xmlmeta", "lookalike"]))
         docs.append(d)
-    sub = draw(st.sampled_from(["on", "off", "custom"]))
+    sub = draw(st.sampled_from(["on", "off", "custom", "off+custom"]))
     return {"docs": docs, "format": draw(st.sampled_from(FORMATS)), "subclassing": sub,
             "writer": draw(st.sampled_from(["get_rdf_str", "write_file", "odmlwriter_str", "odmlwriter_file",
                                             "odml_save"])),
@@ -101,8 +106,9 @@ def prepare(spec, k, seed, sub_types):
              "props": [many], "sections": []}]
         spec = S.fill_ids(spec, seed * 7 + k + 500009)
     secs = list(S.iter_secs(spec))
+    spec["repository"] = REPOS[(seed + k) % len(REPOS)]
     for i, s in enumerate(secs):
-        s["repository"] = None
+        s["repository"] = REPOS[(seed // 3 + 2 * i + k) % len(REPOS)]
         if i < len(sub_types):
             s["type"] = sub_types[i]
     return spec
@@ -280,6 +286,42 @@ def check_shape(graph, docs, table, fails, loc):
                 if not shortened(v, got):
                     break
 
+    def check_repo(node, obj, what):
+        terms = list(graph.objects(node, U("hasTerminology")))
+        url = obj.repository
+        if not url:
+            if terms:
+                fails.append(failure("rdf.repository", "%s without repository has a hasTerminology edge" % what,
+                                     **loc))
+            return
+        if len(terms) != 1:
+            fails.append(failure("rdf.repository", "%s with repository %r has %d hasTerminology edges"
+                                 % (what, url, len(terms)), **loc))
+            return
+        types = set(graph.objects(terms[0], RDF.type))
+        if types != {rdflib.URIRef(url)}:
+            fails.append(failure("rdf.repository", "%s with repository %r is linked to a terminology node "
+                                 "typed %r" % (what, url, sorted(map(str, types))), **loc))
+        if (hub_node, U("hasTerminology"), terms[0]) not in graph:
+            fails.append(failure("rdf.repository", "the terminology node of %s is not linked to the Hub"
+                                 % what, **loc))
+
+    hub_node = hub
+    all_repos = set()
+    for d in docs:
+        check_repo(U(d.id), d, "Document")
+        if d.repository:
+            all_repos.add(d.repository)
+        for s_ in d.itersections():
+            check_repo(U(s_.id), s_, "Section %r" % s_.name)
+            if s_.repository:
+                all_repos.add(s_.repository)
+    if hub_node is not None:
+        hub_terms = set(graph.objects(hub_node, U("hasTerminology")))
+        if len(hub_terms) != len(all_repos):
+            fails.append(failure("rdf.repository", "the Hub links %d terminology nodes for %d distinct "
+                                 "repository urls" % (len(hub_terms), len(all_repos)), **loc))
+
     for d in docs:
         node = U(d.id)
         if set(graph.objects(node, RDF.type)) != {U("Document")}:
@@ -307,9 +349,9 @@ def body(case):
     kw = {}
     table = None
     if writer in ("get_rdf_str", "write_file"):
-        if sub == "off":
+        if sub in ("off", "off+custom"):
             kw["rdf_subclassing"] = False
-        elif sub == "custom":
+        if sub in ("custom", "off+custom"):
             kw["custom_subclasses"] = CUSTOM
     loc = dict(format=fmt, writer=writer, subclassing=sub)
     fails = []
